@@ -310,6 +310,12 @@ func rewriteFile(p *packages.Package, file *ast.File, name, repo string, stmtLvl
 			if repl := r.rewriteCall(n); repl != nil {
 				c.Replace(repl)
 			}
+		case *ast.SelectorExpr:
+			if tn, ok := r.info.Uses[n.Sel].(*types.TypeName); ok && tn.Pkg() != nil && tn.Pkg().Path() == "sync" && tn.Name() == "Pool" {
+				r.useSim, r.changed = true, true
+				counts["pool"]++
+				c.Replace(sel("verifsim", "Pool"))
+			}
 		case *ast.UnaryExpr:
 			if n.Op == token.ARROW && !r.skip[n] {
 				c.Replace(call(sel("verifsim", "Recv"), r.site(n.Pos(), "recv"), n.X))
@@ -393,6 +399,11 @@ func rewriteFile(p *packages.Package, file *ast.File, name, repo string, stmtLvl
 
 	if r.useSim {
 		astutil.AddNamedImport(r.fset, file, "verifsim", simPkg)
+		for _, std := range []string{"sync", "time", "path/filepath"} {
+			if !astutil.UsesImport(file, std) {
+				astutil.DeleteImport(r.fset, file, std)
+			}
+		}
 	}
 	if r.useOS {
 		astutil.AddNamedImport(r.fset, file, "verifsimos", simosPkg)
